@@ -19,6 +19,7 @@ R = 'src/request.rs'
 P = 'src/response.rs'
 T = 'src/router.rs'
 M = 'src/common/mod.rs'
+H = 'src/common/headers.rs'
 
 MUTANTS = [
     # ---- connection.rs read path
@@ -94,6 +95,36 @@ MUTANTS = [
         } else {
             Response::new(Version::Http11, StatusCode::NotFound)
         };""", None),
+    # ---- headers.rs (C15 and the properties its clauses also carry)
+    ('hd-cl-u64-clamp', 'headers', H, """Header::ContentLength => match entry[1].trim().parse::<u32>() {
+                            Ok(content_length) => {
+                                self.content_length = content_length;""", """Header::ContentLength => match entry[1].trim().parse::<u64>() {
+                            Ok(content_length) => {
+                                self.content_length = content_length.min(u32::MAX as u64) as u32;""", {'C15', 'C02', 'C04'}),
+    ('hd-name-no-lower', 'headers', H, '            utf8_string.make_ascii_lowercase();\n', '', {'C15', 'C13'}),
+    ('hd-unsupported-fatal', 'headers', H, """                    Ok(_)
+                    | Err(RequestError::HeaderError(HttpHeaderError::UnsupportedValue(_, _))) => {
+                        continue
+                    }""", """                    Ok(_) => {
+                        continue
+                    }""", {'C15', 'C14'}),
+    ('hd-accept-first-wins', 'headers', H, """                            Ok(accept_type) => {
+                                self.accept = accept_type;""", """                            Ok(accept_type) => {
+                                if self.accept == MediaType::PlainText { self.accept = accept_type; }""", {'C15'}),
+    ('hd-chunked-cleared', 'headers', H, '                            "identity" => Ok(()),', '                            "identity" => { self.chunked = false; Ok(()) }', {'C15'}),
+    ('hd-custom-untrimmed', 'headers', H, """                        entry[1].trim().to_string(),
+                    )?;""", """                        entry[1].to_string(),
+                    )?;""", {'C15'}),
+    ('hd-encoding-star-always', 'headers', H, '"*;q=0" if !headers_str.contains("identity") => {', '"*;q=0" => {', {'C15'}),
+    ('hd-block-no-break', 'headers', H, """                if header_line.is_empty() {
+                    break;
+                }""", """                if header_line.is_empty() {
+                    continue;
+                }""", {'C15'}),
+    ('hd-expect-sets-chunked', 'headers', H, """                            "100-continue" => {
+                                self.expect = true;""", """                            "100-continue" => {
+                                self.chunked = true;""", {'C15', 'C13'}),
+    ('hd-media-swapped', 'headers', H, '"text/plain" => Ok(Self::PlainText),', '"text/plain" => Ok(Self::ApplicationJson),', {'C15', 'C16'}),
     ('benign-comment', 'conn', C, '        // Update `read_cursor`.', '        // Update `read_cursor` (number of carried bytes).', None),
     ('benign-reorder-reset', 'conn', C, '        self.body_vec.clear();\n        self.body_bytes_to_be_read = 0;', '        self.body_bytes_to_be_read = 0;\n        self.body_vec.clear();', None),
     ('benign-clear-loop-short', 'conn', C, 'for cursor in delta_bytes..end_cursor {', 'for cursor in delta_bytes..end_cursor - 1 {', None),
